@@ -214,7 +214,9 @@ def main():
 
     # 7. evidence
     wall = time.time() - t0
-    if not args.replay:
+    # evidence describes the tree in /repo as it is: runs against a scratch checkout (VERIF_REPO) or a seeded change (tools/seed_eval.py sets
+    # VERIF_NO_EVIDENCE) leave the evidence files alone
+    if not args.replay and not os.environ.get("VERIF_NO_EVIDENCE") and os.environ.get("VERIF_REPO", "/repo") == "/repo":
         ev = {
             "property_id": pid, "tier": args.tier, "seed": seed, "level": "proof",
             "coverage": {
